@@ -27,7 +27,7 @@ REQUIRED = ["assort_pairs_compared", "assort_pairs_nontrivial", "exhaustive_tabl
             "contest_identifier_is_not_a_string", "ballot_mappings_not_stored_in_preference_order",
             "ballots_listing_unranked_candidates_with_rank_0", "assorter_means_compared_with_generator_tallies",
             "assorter_means_compared:some_cards_lack_the_contest",
-            "reader_files_where_a_candidate_shares_its_name_with_the_contest_or_ballot"]
+            "reader_files_where_a_candidate_shares_its_name_with_the_contest_or_ballot", "reader_files_larger_than_4_MiB"]
 ASSUMPTIONS = ["rankings are duplicate-free (the property's quantifier)", "candidate ids are strings in both readers",
                "JSON mapping per the RAIRE documentation: WINNER_ONLY <-> NEB, IRV_ELIMINATION + already_eliminated <-> NEN"]
 EXHAUSTIVE = "c14.assort enumerates every partial ranking x ordered pair x eliminated set for each n listed in the counters"
@@ -40,12 +40,17 @@ def plan(tier, seed):
     out = [{"kind": "mixed", "files": b["files"] // shards, "raire": b["raire"] // shards, "shard": i} for i in range(shards)]
     for n in range(2, b["nmax"] + 1):
         out.append({"kind": "exhaustive", "n": n, "shard": 100 + n})
+    # one export of realistic size (the shipped examples are 1-3.5 MB; a county is larger): > 4 MiB
+    out.append({"kind": "bigfile", "shard": 200})
     return out
 
 
 def run_shard(spec, rec):
     if spec["kind"] == "exhaustive":
         run_case({"kind": "exhaustive", "n": spec["n"]}, rec)
+        return
+    if spec["kind"] == "bigfile":
+        run_case({"kind": "file", "fseed": 1000 + spec["seed"], "big": True}, rec)
         return
     rng = random.Random(f"c14-{spec['seed']}-{spec['shard']}")
     for _ in range(spec["files"]):
@@ -196,7 +201,20 @@ def run_file(case, rec):
     from shangrla.raire.raire_utils import load_contests_from_raire
     rng = random.Random(case["fseed"])
     lines, cands = gen_file(rng)
-    rec.case(case, nontrivial=True, sample={"lines": lines[:8]})
+    if case.get("big"):
+        # the same kind of file with ~150 000 ballot lines (about 6 MB)
+        cons = list(cands)
+        head = lines[: 1 + len(cons)]
+        body = []
+        for j in range(150000):
+            c = cons[j % len(cons)]
+            k = 1 + (j * 7) % len(cands[c])
+            start = (j * 3) % len(cands[c])
+            prefs = [cands[c][(start + q) % len(cands[c])] for q in range(k)]
+            body.append(",".join([c, f"precinct-{j % 977:04d}-card-{j // 3:06d}"] + prefs))
+        lines = head + body
+        rec.count("reader_files_larger_than_4_MiB")
+    rec.case(case, nontrivial=True, sample={"lines": lines[:8], "n_lines": len(lines)})
     d = env.scratch_dir("c14")
     try:
         path = os.path.join(d, "t.raire")
